@@ -190,6 +190,7 @@ def mako_run(src, mode, uri, strict=False):
 
     ctx = tenv.make_ctx()
     pre = tenv.Boom("prebuilt")
+    pre.__cause__ = KeyError("the real reason")  # (raise Boom(..) from KeyError(..): the chain belongs to the object)
     ctx["boom"] = lambda cls=None, msg="boom": (_ for _ in ()).throw(pre)
     from mako import runtime as _rt
 
@@ -314,6 +315,8 @@ def check_case(case, ev=None, want_caught=False):
                 raise Failure(case, "reference raises %s, mako raises %r%s" % (ref[1], got[1], tag), "unhandled:other-exception:" + type(got[1]).__name__)
             if ref[1] == "Boom" and case["kind"] not in ("py", "undef") and got[1] is not got[2]:
                 raise Failure(case, "the exception that propagated is not the original object: %r%s" % (got[1], tag), "unhandled:not-same-object")
+            if ref[1] == "Boom" and case["kind"] not in ("py", "undef") and not isinstance(got[1].__cause__, KeyError):
+                raise Failure(case, "the exception object propagated but lost its chain: __cause__ %r%s" % (got[1].__cause__, tag), "unhandled:object-changed")
     elif mode == "error_handler":
         if got[0] != "ok":
             raise Failure(case, "error_handler returned True but render raised %r%s" % (got[1], tag), "error_handler:raised")
@@ -328,6 +331,9 @@ def check_case(case, ev=None, want_caught=False):
                 raise Failure(case, "error_handler returned a false value but the render returned %r%s" % (got[1], tag), "handler-declines:swallowed")
             if ref[1] == "Boom" and case["kind"] not in ("py", "undef") and got[1] is not got[2]:
                 raise Failure(case, "error_handler declined but %r propagated instead of the original object%s" % (got[1], tag), "handler-declines:not-same-object")
+            if ref[1] == "Boom" and case["kind"] not in ("py", "undef") and (not isinstance(got[1].__cause__, KeyError) or got[1].args != ("prebuilt",)):
+                raise Failure(case, "error_handler declined and the exception object propagated, but changed: __cause__ %r (was KeyError('the real reason')), "
+                              "args %r%s" % (got[1].__cause__, got[1].args, tag), "handler-declines:object-changed")
         elif got[:2] != ("ok", ref[1]):
             raise Failure(case, "mako rendered %r, reference %r%s" % (got[:2], ref[1], tag), "handled:output-differs")
     elif mode == "handler_declines_baseexc":
